@@ -104,3 +104,54 @@ def cost_case(draw, classes=("E", "E", "F"), shapes=("tiny", "tiny", "tiny", "sm
                 beta_v = float(bscale * rng.uniform(0, 1))
         cost = np.ascontiguousarray(cost, dtype=np.float64)
     return {"cls": cls, "shape": shape, "cost": cost, "beta": beta_v}
+
+
+# ----------------------------------------------------------------------------- end-to-end run configurations
+
+@st.composite
+def e2e_config(draw, front=("single", "single", "joint"), max_N=3, max_W=4, max_K=4, t_range=(30, 120),
+               limits=(1, 2, 3, 5, 30), betas=(0.0, 1.0, 10.0, 100.0, 1000.0), lam_forms=("scalar", "scalar", "const_matrix", "random_matrix"),
+               beta_forms=("scalar", "scalar", "scalar", "vector"), eps_values=(0,), allow_degenerate=False, scales=False,
+               max_series=6, procs=(1,)):
+    fr = draw(st.sampled_from(list(front)))
+    N = draw(st.integers(1, max_N))
+    W = draw(st.integers(1, max_W))
+    K = draw(st.integers(2, max_K))
+    nser = 1 if fr == "single" else draw(st.integers(1, max_series))
+    lo = max(t_range[0], W + K + 2)
+    if fr == "single":
+        lengths = [draw(st.integers(lo, max(lo, t_range[1])))]
+    else:
+        per = max(W + K + 2, t_range[0] // 2)
+        lengths = [draw(st.integers(per, max(per, t_range[1] // 2))) for _ in range(nser)]
+    cfg = {
+        "front": fr, "N": N, "W": W, "K": K, "lengths": lengths,
+        "regimes": draw(st.integers(1, K)),
+        "mean_spread": draw(st.sampled_from([0.0, 0.5, 2.0, 6.0])),
+        "data_seed": draw(st.integers(0, 2 ** 31 - 1)),
+        "np_seed": draw(st.integers(0, 2 ** 31 - 1)),
+        "py_seed": draw(st.integers(0, 2 ** 31 - 1)),
+        "beta": draw(st.sampled_from(list(betas))),
+        "beta_form": draw(st.sampled_from(list(beta_forms))),
+        "lam": draw(st.sampled_from([0.0, 0.01, 0.11, 0.11, 0.5, 1.0])),
+        "lam_form": draw(st.sampled_from(list(lam_forms))),
+        "limit": draw(st.sampled_from(list(limits))),
+        "m": draw(st.integers(2, 6)),
+        "biased": draw(st.booleans()),
+        "eps": draw(st.sampled_from(list(eps_values))),
+        "num_processors": draw(st.sampled_from(list(procs))),
+        "boundary_regime_flip": draw(st.booleans()),
+    }
+    if cfg["beta_form"] == "vector" and draw(st.booleans()):
+        cfg["beta_vector_seed"] = draw(st.integers(0, 2 ** 16))
+    if fr == "joint":
+        cfg["beta_form"] = "scalar"          # the joint front end documents a scalar switching cost
+        cfg.pop("beta_vector_seed", None)
+    if scales:
+        cfg["sensor_scales"] = [10.0 ** draw(st.integers(-6, 6)) for _ in range(N)]
+    if allow_degenerate:
+        if draw(st.integers(0, 3)) == 0:
+            cfg["constant_sensor"] = draw(st.integers(0, N - 1))
+        if draw(st.integers(0, 3)) == 0:
+            cfg["duplicate_rows"] = True
+    return cfg
